@@ -15,7 +15,7 @@ cd "$HERE"
 # machinery to prove that a seam is live (not independent evidence, unlike /verif/seeded)
 declare -A EXPECT=(
  [selfmade-decoded-text-cache]="C06 C13"
- [55b4b2a]="C03"
+ [55b4b2a]="C03" [b7fec6b]="C06"
  [1ac9947]="C06 C03" [474d91c]="C06 C03" [b5b971c]="C12" [c217e1a]="C12" [201f5d4]="C12 C11"
  [3a03e34]="C11" [cbe05b4]="C06" [14b7e1d]="C06" [2fe554b]="C14" [ff78c38]="C15" [e11cc0a]="C15" [a7715b3]="C15" [f3e5ca9]="C15" [d78f1f5]="C15" [ddb7fb4]="C13"
 )
